@@ -469,7 +469,7 @@ def validate_translator(prop, claims, seed, pool, max_claims=120):
     import random as _random
     sel = list(claims)
     _random.Random(seed + 1).shuffle(sel)
-    sel = [c for c in sel if not c.novalidate][:max_claims]
+    sel = [c for c in sel if not c.novalidate and not c.sym_random][:max_claims]
     got = {}
 
     def on_msg(key, msg):
@@ -578,11 +578,11 @@ def main(argv=None):
 
     def on_kill1(key, budget=False):
         # an exploration that does not finish leaves the claim undecided (reported), it is not a harness error
-        paths[key] = [dict(decisions=None, status='budget', info=dict(msg='exploration did not finish in 300 s'), labels=[], kinds=[])]
+        paths[key] = [dict(decisions=None, status='budget', info=dict(msg='exploration did not finish in 200 s'), labels=[], kinds=[])]
 
     budget = getattr(hmod, 'WALL_BUDGET', {}).get(tier, 420 if tier == 'quick' else 2400)
     deadline = t_start + budget
-    pool.run([(c.name, explore_job, (c,), 300) for c in claims], on_msg1, on_kill1, label=f'{prop} explore')
+    pool.run([(c.name, explore_job, (c,), 200) for c in claims], on_msg1, on_kill1, label=f'{prop} explore')
     if errors:
         for e in errors:
             print('HARNESS-ERROR exploring', e[0], e[1], '\n', e[2])
